@@ -17,134 +17,22 @@ Record rcase := { c_archs : list (string * universe); c_runs : list run }.
 Definition P := Build_pkg.
 Definition Rn := Build_run.
 
-(* ---- finding a schedule for the install_if loops --------------------------------
-   Untrusted helper: it only PROPOSES schedules; the comparison below runs the
-   model's own [resolve_with] on them and checks that they are legal. *)
-Fixpoint subperms (fuel : nat) (T : list string) : list (list string) :=
-  match fuel with
-  | O => [[]]
-  | S f => [] :: flat_map (fun x => List.map (cons x) (subperms f (List.filter (fun y => negb (String.eqb x y)) T))) T
-  end.
-
-Definition triggers (R : resolver) : list string :=
-  nodup string_dec (flat_map (fun k => flat_map (fun d => [s_name d; s_raw d]) (k_iifs k)) (r_pkgs R)).
-
-Fixpoint is_prefix_nat (a b : list nat) : bool :=
-  match a, b with
-  | [], _ => true
-  | x :: a', y :: b' => Nat.eqb x y && is_prefix_nat a' b'
-  | _ :: _, [] => false
-  end.
-
-Fixpoint first_some {A B} (f : A -> option B) (l : list A) : option B :=
-  match l with
-  | [] => None
-  | x :: t => match f x with Some y => Some y | None => first_some f t end
-  end.
-
-Fixpoint dedupe_outcomes (l : list (list string * list pid)) (seen : list (list pid)) : list (list string * list pid) :=
-  match l with
-  | [] => []
-  | (s, d) :: t => if existsb (list_eqb Nat.eqb d) seen then dedupe_outcomes t seen
-                   else (s, d) :: dedupe_outcomes t (d :: seen)
-  end.
-
-Fixpoint search (R : resolver) (T : list string) (ws : list cstr) (dq : list pid) (sel : list (string * pid))
-    (acc : list pid * list string * list (string * pid)) (target : option (list pid))
-    (trail : list (list string)) : option (list (list string)) :=
-  match ws with
-  | [] => match target with
-          | Some t => if list_eqb Nat.eqb (fst (fst acc)) t then Some (rev trail) else None
-          | None => None
-          end
-  | w :: ws' =>
-      match get_pkg_core R w dq sel (snd acc) with
-      | Ok (dq', sel', i, l, added) =>
-          let init := List.map fst added in
-          let inert := List.filter (fun k => negb (mem_str k T)) init in
-          let need := List.filter (fun k => mem_str k T) init in
-          let scheds := List.filter (fun s => forallb (fun k => mem_str k s) need) (subperms (List.length T) T) in
-          let outcomes := dedupe_outcomes (List.map (fun s => (inert ++ s, iif_loop R (inert ++ s) l added)) scheds) [] in
-          first_some (fun sd =>
-            let acc' := track R i (fold_left (fun a j => track R j a) (snd sd) acc) in
-            if match target with Some t => is_prefix_nat (fst (fst acc')) t | None => true end
-            then search R T ws' dq' sel' acc' target (fst sd :: trail) else None) outcomes
-      | Err => match target with None => Some (rev trail) | Some _ => None end
-      | _ => None
-      end
-  end.
-
-Definition find_scheds (R : resolver) (world : list string) (dq0 : list pid) (target : option (list pid)) : option (list (list string)) :=
-  let cw := List.map cook_dep world in
-  let ws := List.map d_pos cw in
-  match constrain R cw dq0 with
-  | Ok dq1 =>
-      match phase1 (List.length ws) R ws dq1 [] with
-      | Ok (dq2, depmap) => search R (triggers R) ws dq2 [] ([], [], depmap) target []
-      | Err => match target with None => Some [] | Some _ => None end
-      | _ => None
-      end
-  | Err => match target with None => Some [] | Some _ => None end
-  | _ => None
-  end.
-
-(* every proposed schedule must be one a Go execution can follow *)
-Fixpoint scheds_legal (R : resolver) (ws : list cstr) (scheds : list (list string)) (dq : list pid)
-    (sel : list (string * pid)) (acc : list pid * list string * list (string * pid)) : bool :=
-  match ws with
-  | [] => true
-  | w :: ws' =>
-      match get_pkg_core R w dq sel (snd acc) with
-      | Ok (dq', sel', i, l, added) =>
-          legal_sched_b (List.map fst added) (hd [] scheds) &&
-          scheds_legal R ws' (tl scheds) dq' sel'
-            (track R i (fold_left (fun a j => track R j a) (iif_loop R (hd [] scheds) l added) acc))
-      | _ => true
-      end
-  end.
-
-Definition res_eqb (m : res (list pid)) (o : option (list nat)) : bool :=
-  match m, o with
-  | Ok l, Some l' => list_eqb Nat.eqb l l'
-  | Err, None => true
-  | _, _ => false
-  end.
-
-(* model vs implementation for one call; returns mismatch tags *)
+(* model vs implementation for one call; returns mismatch tags.  The model is
+   a function of (resolver, world, dq0) — since fix c03e0c0 the install_if loop
+   has no iteration-order freedom — so the implementation's ordered list must
+   EQUAL it, with or without install_if packages.  (Until then the comparison
+   searched for a legal visit schedule of the map-range loop reproducing the
+   observed list.) *)
 Definition compare_run (R : resolver) (world : list string) (dq0 : list pid) (obs : option (list nat)) : list string :=
-  match r_iif R with
-  | [] =>
-      (* no install_if anywhere: the schedules are irrelevant *)
-      match resolve_with R world dq0 [], obs with
-      | Ok l, Some l' => tag_if (negb (list_eqb Nat.eqb l l')) "mismatch:install-list"
-      | Err, None => []
-      | Ok _, None => ["mismatch:model-ok-impl-error"]
-      | Err, Some _ => ["mismatch:model-error-impl-ok"]
-      | Panic, _ => ["mismatch:model-panics"]
-      | OutOfFuel, _ => ["mismatch:model-out-of-fuel"]
-      end
-  | _ =>
-      match find_scheds R world dq0 obs with
-      | None =>
-          match resolve_with R world dq0 [], obs with
-          | Ok _, None => ["mismatch:model-ok-impl-error"]
-          | Err, Some _ => ["mismatch:model-error-impl-ok"]
-          | Panic, _ => ["mismatch:model-panics"]
-          | OutOfFuel, _ => ["mismatch:model-out-of-fuel"]
-          | _, _ => ["mismatch:install-list/no-schedule-reproduces-it"]
-          end
-      | Some scheds =>
-          tag_if (negb (res_eqb (resolve_with R world dq0 scheds) obs)) "mismatch:install-list/proposed-schedule-fails" ++
-          tag_if (negb (let cw := List.map cook_dep world in
-                        let ws := List.map d_pos cw in
-                        match constrain R cw dq0 with
-                        | Ok dq1 => match phase1 (List.length ws) R ws dq1 [] with
-                                    | Ok (dq2, depmap) => scheds_legal R ws scheds dq2 [] ([], [], depmap)
-                                    | _ => true
-                                    end
-                        | _ => true
-                        end)) "mismatch:install-list/schedule-not-legal"
-      end
+  match resolve_with R world dq0, obs with
+  | Ok l, Some l' =>
+      tag_if (negb (list_eqb Nat.eqb l l'))
+        (match r_iif R with [] => "mismatch:install-list" | _ => "mismatch:install-list/universe-with-install-if" end)
+  | Err, None => []
+  | Ok _, None => ["mismatch:model-ok-impl-error"]
+  | Err, Some _ => ["mismatch:model-error-impl-ok"]
+  | Panic, _ => ["mismatch:model-panics"]
+  | OutOfFuel, _ => ["mismatch:model-out-of-fuel"]
   end.
 
 Definition in_range (R : resolver) (o : option (list nat)) : bool :=
